@@ -407,6 +407,30 @@ func (m *Machine) ActAckAgain(t *rapid.T) {
 	m.Log("ackAgain", fmt.Sprintf("%s %s", p.T, kind), fmt.Sprintf("ok=%v", res.OK()))
 }
 
+// ActLimit enables or disables, the way the passed aggregate proposals do, a time-based supply limit on a bound
+// token of some chain; receives above the limit then fail inside the destination callback (error ack, refund).
+func (m *Machine) ActLimit(t *rapid.T) {
+	w := m.W
+	c := rapid.IntRange(1, len(w.Chains)-1).Draw(t, "chain")
+	tok := w.Tok[c]
+	if rapid.Bool().Draw(t, "nativeWrapped") {
+		tok = w.NTok[c]
+	}
+	ch := w.Chains[c]
+	if rapid.IntRange(0, 2).Draw(t, "disable") == 0 {
+		err := ch.App.AggregateKeeper.DisableTimeBasedSupplyLimit(ch.Ctx(), tok)
+		m.Log("limit", fmt.Sprintf("chain %d %s disable", c, w.TokName(c, tok)), fmt.Sprintf("err=%v", err != nil))
+		return
+	}
+	minA := int64(rapid.IntRange(1, 20).Draw(t, "min"))
+	maxA := minA + int64(rapid.IntRange(1, 200).Draw(t, "maxDelta"))
+	lim := maxA + int64(rapid.IntRange(1, 300).Draw(t, "limitDelta"))
+	period := int64(rapid.IntRange(1, 60).Draw(t, "period"))
+	err := ch.App.AggregateKeeper.EnableTimeBasedSupplyLimit(ch.Ctx(), tok, big.NewInt(period), big.NewInt(lim), big.NewInt(maxA), big.NewInt(minA))
+	m.R.Label("supply_limit_enabled")
+	m.Log("limit", fmt.Sprintf("chain %d %s period=%d limit=%d max=%d min=%d", c, w.TokName(c, tok), period, lim, maxA, minA), fmt.Sprintf("err=%v", err != nil))
+}
+
 // BaseActions returns the standard action table.
 func (m *Machine) BaseActions() map[string]func(*rapid.T) {
 	wrap := func(f func(*rapid.T)) func(*rapid.T) {
